@@ -532,3 +532,37 @@ func everyCategory(rng *rand.Rand, g *world.Gen) func(uint32, *world.BlockSpec) 
 		}
 	}
 }
+
+// crowd sends dust to many fresh addresses in a few blocks (anybody can do
+// that): the ledger tables then hold thousands of rows, and a block that
+// rewrites them all (the holder snapshot) dirties more pages than SQLite's
+// page cache holds.
+func crowd(rng *rand.Rand, g *world.Gen, total int) func(uint32, *world.BlockSpec) {
+	f := newFollower(g)
+	next := 100000
+	return func(h uint32, bs *world.BlockSpec) {
+		if next >= 100000+total || h < g.B.W.Spec.Config.Act["TxConv"] {
+			return
+		}
+		hs := f.funded(h, g.P.Users)
+		for _, x := range hs {
+			if x.amt < 5000 || next >= 100000+total {
+				continue
+			}
+			// up to 5 batches of 100 outputs (a Factom entry holds at most 10 KiB) from this holder
+			for b := 0; b < 60 && next < 100000+total && x.amt >= 200; b++ {
+				n := 100
+				if n > 100000+total-next {
+					n = 100000 + total - next
+				}
+				var outs []world.Out
+				for i := 0; i < n; i++ {
+					outs = append(outs, world.Out{To: next, Amt: 2})
+					next++
+				}
+				bs.Tx = append(bs.Tx, txFrom(x.ref, nextNonce(), world.TxPart{Asset: x.asset, Amt: uint64(2 * n), Outs: outs}))
+				x.amt -= uint64(2 * n)
+			}
+		}
+	}
+}
